@@ -198,9 +198,11 @@ func (e *Exclusive) call(c exclusiveConfig) <-chan *ExclusiveOutcome {
 
 			// WARNING see how this is used in the outcome handling
 			item.count++
+			verifPoint("excl.attach", item, item.count)
 
 			// escape hatch for start case (avoids unnecessary contention)
 			if c.start && item.count != 1 {
+				verifPoint("excl.escape", item, item.count)
 				e.mutex.Unlock()
 				item.mutex.Unlock()
 				return nil
@@ -233,6 +235,7 @@ func (e *Exclusive) call(c exclusiveConfig) <-chan *ExclusiveOutcome {
 
 		if item.complete {
 			// case 2)
+			verifPoint("excl.deliver", item, 0)
 			if outcome != nil {
 				outcome <- &ExclusiveOutcome{
 					Result: item.result,
@@ -248,6 +251,7 @@ func (e *Exclusive) call(c exclusiveConfig) <-chan *ExclusiveOutcome {
 
 		// the item is now running
 		item.running = true
+		verifPoint("excl.run", item, 0)
 
 		// before we remove item from the work map, handle any specified wait, unlocking while we are waiting
 		// so that other calls may register themselves on the item
@@ -269,6 +273,7 @@ func (e *Exclusive) call(c exclusiveConfig) <-chan *ExclusiveOutcome {
 			running: true,
 		}
 		e.work[c.key] = nextItem
+		verifPoint("excl.swap", nextItem, 0)
 		e.mutex.Unlock()
 
 		// release the mutex while we do the work
@@ -292,12 +297,15 @@ func (e *Exclusive) call(c exclusiveConfig) <-chan *ExclusiveOutcome {
 						item.err = err
 						item.complete = true
 						item.running = false
+						verifPoint("excl.resolve", item, 0)
 						item.cond.Broadcast()
 						item.mutex.Unlock()
 					})
 				}
 			)
+			verifPoint("excl.work", item, 0)
 			item.work(resolve)
+			verifPoint("excl.returned", item, 0)
 			resolve(nil, errResolveNotCalled)
 		}
 
@@ -306,6 +314,7 @@ func (e *Exclusive) call(c exclusiveConfig) <-chan *ExclusiveOutcome {
 		// (setting nextItem.running to false is what actually triggers the next job, if any)
 		nextItem.mutex.Lock()
 		nextItem.running = false
+		verifPoint("excl.clear", nextItem, nextItem.count)
 		if nextItem.count == 0 {
 			e.mutex.Lock()
 			delete(e.work, c.key)
